@@ -77,8 +77,10 @@ def _norm_anchor(a):
     return a
 
 
-def run(eng, axis=0, anchors=("sym", "sym"), explicit=None, hidden=(), where="view", ids=False, strand=False):
-    """anchors: 'sym' -> symbolic int; otherwise literal; explicit: None | list of 'sym' / literal"""
+def run(eng, axis=0, anchors=("sym", "sym"), explicit=None, hidden=(), where="view", ids=False, strand=False, view_variant=None):
+    """anchors: 'sym' -> symbolic int; otherwise literal; explicit: None | list of 'sym' / literal.
+    view_variant (with where='transforms'): the variable ALSO carries insertions, which the analysis ones override -
+    'reordered': the same insertions (same ids) in reverse definition order; 'other': insertions with other ids and anchors"""
     sym_anchors = []
     ins = []
     for k, a in enumerate(anchors):
@@ -91,7 +93,13 @@ def run(eng, axis=0, anchors=("sym", "sym"), explicit=None, hidden=(), where="vi
     exp = None
     if explicit is not None:
         exp = [eng.int("exp%d" % k, domain=DOMAIN) if x == "sym" else x for k, x in enumerate(explicit)]
-    var = ("cat", "a", 3, {"missing_at": (3,), "insertions": ins if where == "view" else [], "cats": None})
+    view_ins = ins if where == "view" else []
+    if view_variant == "reordered":
+        view_ins = [dict(d) for d in reversed(ins)]
+    elif view_variant == "other":
+        view_ins = [{"anchor": "top", "function": "subtotal", "name": "V0", "args": [IDS[0]], "id": 20},
+                    {"anchor": IDS[1], "function": "subtotal", "name": "V1", "args": [IDS[1], IDS[2]], "id": 21}]
+    var = ("cat", "a", 3, {"missing_at": (3,), "insertions": view_ins, "cats": None})
     w = CellWorld(eng, [var] if strand else ([var, ("cat", "b", 2, {"missing_at": (0,)})] if axis == 0 else [("cat", "b", 2, {"missing_at": (0,)}), var]))
     # payload ids 2, 5, 1 instead of 1, 2, 3
     v = w.vars[0 if (strand or axis == 0) else 1]
@@ -172,6 +180,9 @@ def specs(tier):
     add("rows: symbolic anchor + top + TOP + None, view", dict(anchors=["sym", "top", "TOP", None]))
     add("rows: symbolic anchors, transforms with ids", dict(anchors=["sym", "sym"], where="transforms", ids=True))
     add("rows: symbolic anchors, transforms without ids", dict(anchors=["sym", "bottom", "sym"], where="transforms"))
+    add("rows: analysis insertions override the variable's (same ids, other definition order)", dict(anchors=["sym", "top", "sym"], where="transforms", ids=True, view_variant="reordered"))
+    add("rows: analysis insertions override the variable's (other ids)", dict(anchors=["sym", "bottom"], where="transforms", ids=True, view_variant="other"))
+    add("columns: id-less analysis insertions override the variable's", dict(axis=1, anchors=["sym", "sym"], where="transforms", view_variant="other"))
     add("rows: string-spelled anchors", dict(anchors=["5", "1", "99", "Bottom"]))
     add("rows: symbolic anchors with hidden anchor element", dict(anchors=["sym", "sym"], hidden=[5]))
     add("rows: explicit order of two symbolic ids + symbolic anchor", dict(anchors=["sym", "top"], explicit=["sym", "sym"]))
